@@ -1267,6 +1267,17 @@ def r13_calls_keep_their_rule(a, tier):
     return calls_keep_their_rule(a, 'C01.R13')
 
 
+def r14_separator_commits(a, tier):
+    """s%{e} and s.{e} are both e {s ~ e}: the separator commits, whether or not it is kept in the AST"""
+    from . import c05
+    rep = c05.r4_join_commit(a, tier)
+    rep.rule = 'C01.R14'
+    for f in rep.findings:
+        f.rule = 'C01.R14'
+    rep.text = '[= C05.R4] ' + rep.text
+    return rep
+
+
 RULES = [r_chain, r1_frames, r1b_semantic_failures, r1c_control_containment, r2_cst, r3_ordered_choice, r4_progress, r5_state_stack,
          r6_defines_cover_operands, r7_what_a_frame_keeps, r7b_negative_lookahead,
-         r8_leaf_protocol, r9_engine_contracts, r10_model_values, r11_optimizer, r12_text_to_model, r13_calls_keep_their_rule]
+         r8_leaf_protocol, r9_engine_contracts, r10_model_values, r11_optimizer, r12_text_to_model, r13_calls_keep_their_rule, r14_separator_commits]
